@@ -11,7 +11,8 @@ CHECK = {
         "scalar_float", "scalar_double",
         "euler_generic", "euler_pitch_limit", "euler_wrap", "euler_axis_only",
         "rotmat_generic", "rotmat_r20_limit", "quaternion_generic", "quaternion_r20_limit",
-        "quaternion_scale_almost_unit", "quaternion_scale_almost_unit_steep_pitch", "smart_near_duplicate_reinit",
+        "quaternion_scale_almost_unit", "quaternion_scale_almost_unit_steep_pitch",
+        "quaternion_scale_extreme_small", "quaternion_scale_extreme_large", "smart_near_duplicate_reinit",
         "normaliser_random", "normaliser_multiple_ulps", "normaliser_multiple_near", "normaliser_tiny",
         "rot2d", "polar_generic", "polar_axis", "polar_homogeneous",
         "spherical_generic", "spherical_pole", "spherical_axis", "spherical_homogeneous"],
@@ -46,7 +47,8 @@ CHECK = {
             "unrelated angles, and in half of the cases re-initialised 1..3 more times with previous+delta, |delta| log-spaced "
             "1e-15..1e-2 on one, two or three components or exactly 0, checked after every step); rotation "
             "given as a matrix or as a quaternion (scale classes: exactly unit, almost unit = 1+-delta with delta log-spaced "
-            "1e-8..1e-2 and drawn more often in the steep-pitch band, norm 1e-3..1e3; either sign) built in long double from a "
+            "1e-8..1e-2 and drawn more often in the steep-pitch band, norm 1e-3..1e3, extreme norm log-spaced 1e-18..1e-3 / "
+            "1e3..1e18 for float and 1e-150..1e-3 / 1e3..1e150 for double incl. the end values; either sign) built in long double from a "
             "random unit quaternion or with R(2,0) log-spaced 1e-12..1e-3 below +-(1-1e-6), rounded to Scalar; normaliser "
             "inputs in (-4pi,4pi): uniform, k*pi/2 (|k|<=8) +-0..3 ulps or +-1e-16..1e-3, +-0, denormals, tiny of either "
             "sign; planar angles like roll; 2D/3D points with norm 1e-6..1e6, uniform direction, on/next to the axes and "
@@ -73,7 +75,8 @@ CHECK = {
         "normaliser intervals are closed ([0,2pi], [-pi,pi]); a float result may be the float nearest to the end point "
         "(one float ulp above it)",
         "a quaternion input is in the domain when the rotation it denotes has |R(2,0)| <= 1-1e-6 (same limit as for "
-        "matrices); norms 1e-3..1e3",
+        "matrices); norms log-spaced over what normalized() can represent (|q|^2 finite and normal): "
+        "1e-18..1e18 float, 1e-150..1e150 double",
         "the azimuth/elevation conventions of the polar/spherical maps and the sign convention of the 2x2 pair are not part "
         "of the statement and are not checked; rigid_transformation3 (Transformation.hpp) is not named by the statement and "
         "is not checked",
